@@ -118,6 +118,7 @@ def run(ctx: Ctx) -> None:
     mds = {"cm": MarkdownIt().enable(["table", "strikethrough"]), "js": MarkdownIt("js-default")}
     n = 700 if quick else 20000
     # single characters first (every ASCII punctuation character alone and doubled), then random texts
+    one(ctx, rng, mds, "a\\")                               # known finding D12 (always exercised)
     for c in PUNCT:
         one(ctx, rng, mds, c)
         one(ctx, rng, mds, c + c)
